@@ -133,7 +133,8 @@ def get_cardinality_formula(relation: Relation) -> str:
     parent = relation.parent.name
     children = {child.name for child in relation.children}
     or_ctc = []
-    for k in range(relation.card_min, relation.card_max + 1):
+    card_max = len(children) if relation.card_max == -1 else relation.card_max
+    for k in range(relation.card_min, card_max + 1):
         combi_k = list(itertools.combinations(sorted(children), k))
         for positives in combi_k:
             negatives = sorted(children - set(positives))
@@ -146,7 +147,11 @@ def get_cardinality_formula(relation: Relation) -> str:
                 and_ctc = f'{positives_and_ctc}{negatives_and_ctc}'
             or_ctc.append(and_ctc)
     formula_or_ctc = f'{f" {PLWriter.LogicConnective.OR} ".join(or_ctc)}'
-    return f'{parent} {PLWriter.LogicConnective.EQUIVALENCE} {formula_or_ctc}'
+    or_children = f" {PLWriter.LogicConnective.OR} ".join(sorted(children))
+    # a selected parent has between min and max children; any selected child implies the parent
+    return f'({parent} {PLWriter.LogicConnective.IMPLIES} ({formula_or_ctc})) ' \
+           f'{PLWriter.LogicConnective.AND} ' \
+           f'(({or_children}) {PLWriter.LogicConnective.IMPLIES} {parent})'
 
 
 def get_constraint_formula(ctc: Constraint) -> str:
